@@ -154,6 +154,7 @@ func (fr *Frame) callFunction1(b *ssa.BasicBlock, st *State, callee *ssa.Functio
 	fc := fr.fc
 	name := calleeName(callee)
 	fr.callAsserts(b, st, name, args, pos)
+	fr.callApplies(b, st, name, args, pos)
 	// 1. native models
 	if v, ok := fr.nativeCall(b, st, name, callee, args, resT, pos); ok {
 		return v
@@ -1154,6 +1155,53 @@ func (fr *Frame) callAsserts(b *ssa.BasicBlock, st *State, name string, args []V
 		env := &SpecEnv{fr: fr, vars: vars, now: st, old: fr.pre, pkg: fr.fn.Pkg.Pkg, header: fr.innermostHeader(b)}
 		t, sks := fr.evalGoal(ca.Cl.E, env)
 		fr.fc.obligeSplit("assert", "at:"+ca.Callee+"."+ca.Cl.Label, fr.reach[b.Index], t, pos, fr.propsFor(ca.Cl.Props), true, sks)
+	}
+}
+
+// callApplies: apply at <callee>[#n] lemma(args) - the lemma's statement for these argument values becomes a fact
+// before the matching call (the lemma itself is an obligation of the function, see verifyFn)
+func (fr *Frame) callApplies(b *ssa.BasicBlock, st *State, name string, args []Val, pos token.Pos) {
+	if fr.contract == nil || fr.inlined {
+		return
+	}
+	for ai, ap := range fr.contract.Applies {
+		if !strings.Contains(name, ap.Callee) {
+			continue
+		}
+		if fr.callCount == nil {
+			fr.callCount = map[string]int{}
+		}
+		k := fmt.Sprintf("%s/apply%d", ap.Callee, ai)
+		n := fr.callCount[k]
+		fr.callCount[k]++
+		if ap.Nth >= 0 && ap.Nth != n {
+			continue
+		}
+		ax := fr.fc.eng.lemmaByName(ap.Lemma)
+		if ax == nil || len(ax.Vars) != len(ap.Args) {
+			fr.fc.unsupported("apply: lemma %s unknown or wrong number of arguments", ap.Lemma)
+			continue
+		}
+		vars := map[string]Val{}
+		for kk, v := range fr.params {
+			vars[kk] = v
+		}
+		for i, a := range args {
+			vars[fmt.Sprintf("$%d", i)] = a
+		}
+		env := &SpecEnv{fr: fr, vars: vars, now: st, old: fr.pre, pkg: fr.fn.Pkg.Pkg, header: fr.innermostHeader(b)}
+		lenv := fr.specEnv(st, fr.pre, nil, nil)
+		lenv.vars = map[string]Val{}
+		for i, v := range ax.Vars {
+			av := fr.evalSpec(ap.Args[i], env)
+			lenv = lenv.withBound(v, Val{S: fr.scalar(av), Typ: tInt})
+		}
+		for _, pk := range fr.fc.eng.pkgs {
+			if pk.PkgPath == ax.Pkg {
+				lenv.pkg = pk.Types
+			}
+		}
+		fr.fc.addFact(fr.reach[b.Index], fr.evalBool(ax.E, lenv))
 	}
 }
 
